@@ -72,7 +72,7 @@ def c15_release_exec(reqs):
         return [f'{r} => build-failed' for r in reqs]
     def one(r):
         mode = r.split()[1]
-        q = _sp.run(['/verif/tools/c15_release.sh', '/verif/build/target-rel/release/clockbound', mode],
+        q = _sp.run(['/verif/tools/c15_release.sh', '/verif/build/target-rel/release/clockbound', mode, '/verif/build/target/debug/cbharness'],
                     stdin=_sp.DEVNULL, stdout=_sp.PIPE, stderr=_sp.DEVNULL, text=True, timeout=60)
         t = q.stdout.split()
         if len(t) >= 2 and t[0] == 'exited':
@@ -83,7 +83,7 @@ def c15_release_exec(reqs):
 
 EXTERNAL_THREADS['thrrel'] = c15_release_exec
 _old_gens = PROPS_THREADS['C15']['gens']
-PROPS_THREADS['C15']['gens'] = lambda seed, th: _old_gens(seed, th) + [lambda: c15_release_exec(['thrrel nochrony', 'thrrel silent'])]
+PROPS_THREADS['C15']['gens'] = lambda seed, th: _old_gens(seed, th) + [lambda: c15_release_exec(['thrrel nochrony', 'thrrel silent', 'thrrel pollerdies'])]
 _old_rel = PROPS_THREADS['C15']['relevant']
 PROPS_THREADS['C15']['relevant'] = lambda c: _old_rel(c) or c.req.startswith('thrrel')
-PROPS_THREADS['C15']['rule'] += " || plus two process-level scenarios with the RELEASE binary built from the working tree (no hooks): /run/clockbound is a regular file, so the writer thread panics at start-up; chronyd absent, or its socket present but silent (each query takes its full 3 x 1 s); the process must exit within 6 s"
+PROPS_THREADS['C15']['rule'] += " || plus two process-level scenarios with the RELEASE binary built from the working tree (no hooks): /run/clockbound is a regular file, so the writer thread panics at start-up; chronyd absent, or its socket present but silent (each query takes its full 3 x 1 s); the process must exit within 6 s; `pollerdies`: a stand-in chronyd (harness subcommand `fakechronyd`) reports the PHC as reference, the daemon gets the PHC options and the PHC's error-bound attribute (tmpfs over /sys/bus/pci/devices in the private namespace) reads N/A, so the POLLER panics at its first poll while the writer is healthy: the process must exit"
